@@ -28,6 +28,22 @@ def mentions_inputs(node, fn):
     return sorted(names & INPUTS)
 
 
+def _nonzero(t):
+    """an unsigned term that cannot be zero: a non-zero literal, x.saturating_add(c) / x.max(c) / x | c with a literal c >= 1"""
+    v = hir.sym_int(t)
+    if v is not None:
+        return v != 0
+    if isinstance(t, tuple) and t[:1] == ("call",) and len(t[2]) == 2:
+        nm = str(t[1]).rsplit("::", 1)[-1]
+        if nm in ("saturating_add", "max"):
+            return any((hir.sym_int(x) or 0) >= 1 for x in t[2])
+    if isinstance(t, tuple) and t[:2] == ("bin", "|"):
+        return any((hir.sym_int(x) or 0) >= 1 for x in t[2:4])
+    if isinstance(t, tuple) and t[:1] == ("cast",):
+        return False
+    return False
+
+
 def budget_value(F, fn, roles):
     """Normal form of the Option the statement that arms the timer tests (`if let Some(time) = time` / `match time`), evaluated
     forward through the statements before it (mutable locals, branches merged; the option-parsing loop makes the parameters
@@ -59,15 +75,58 @@ def budget_value(F, fn, roles):
         return None, "statement form not summarised (%s)" % e
 
 
+def untimed_budget(F):
+    """the time budget `go` computes when neither a clock nor a move time was given (e.g. `go depth N`), folded for both sides to
+    move: [(side, normal form)], or (None, reason)"""
+    fn = F.fn(GO)
+    roles = p14.closures_by_role(F)
+    V, why = budget_value(F, fn, roles)
+    if V is None:
+        return None, why
+    NONE = ("variant", "std::prelude::v1::None")
+    players = sorted({t for t in hir.subterms(V) if t and ((t[:2] == ("call", "chess::Game::player")) or (t[0] == "field" and t[-1] == "current_player"))}, key=str)
+    out = []
+    for side in ("White", "Black"):
+        a = {}
+        for nm in ("wtime", "btime", "winc", "binc", "move_time"):
+            a[("var", nm)] = a[("var", "?" + nm)] = NONE
+        a[("var", "infinite")] = a[("var", "?infinite")] = ("lit", False)
+        for p_ in players:
+            a[p_] = ("variant", "chess::Player::" + side)
+        out.append((side, hir.fold(hir.fold(V, a), a)))
+    return out, None
+
+
 def run(ctx):
     F = ctx.facts
     fn = F.fn(GO)
     body = fn["hir"]["body"]
     env = hir.Env(fn["hir"], F)
     sym = hir.Sym(env, F, depth=40)
-    # A1
+    a1(ctx, F, fn, body, sym)
+    a2_to_a6(ctx, F, fn, body, sym)
+
+
+PANICKING_STD = ("::clamp", "Duration::mul_f64", "Duration::div_f64", "Duration::from_secs_f64", "Duration::from_secs_f32",
+                 "::pow", "::ilog", "::ilog2", "::ilog10", "::div_ceil", "::next_multiple_of", "::rem_euclid", "::div_euclid",
+                 "ops::Add>::add", "ops::Sub>::sub", "ops::Mul>::mul", "ops::Div>::div", "ops::AddAssign>::add_assign",
+                 "ops::SubAssign>::sub_assign")
+
+
+def a1(ctx, F, fn, body, sym):
+    """A1: arithmetic on values derived from the clock parameters cannot wrap, truncate or panic"""
     n_arith = 0
     for n, anc in hir.walk(body):
+        if n.get("k") in ("MethodCall", "Call"):
+            c_ = hir.callee_of(n) or ""
+            if c_.endswith(PANICKING_STD) and ("Duration" in c_ or "time::Instant" in c_ or "::clamp" in c_ or "num::" in c_) and mentions_inputs(n, fn):
+                n_arith += 1
+                ctx.check("C13.A1", "panicking-library-arithmetic-on-clock-values:%s" % c_.rsplit("::", 1)[-1], False, fn=GO, file=fn["file"],
+                          line=hir.line(n),
+                          what="a library operation that panics for part of its argument range (`clamp` with min > max, Duration/Instant "
+                               "`+`/`-`/`*` on overflow, `pow`, `div_ceil` by zero ...) is applied to a value derived from the GUI's clock "
+                               "parameters: the `go` that hits the range panics on the command thread and gets no bestmove",
+                          expected="saturating_*/checked_*/min/max", found=hir.fmt(sym(n), 160))
         k = n.get("k")
         if k in ("Binary", "AssignOp") and n["op"].rstrip("=") in ("+", "-", "*", "/", "%", "<<") and n.get("op") not in ("==", "<=", ">=", "!="):
             ty = n.get("ty") if k == "Binary" else hir.strip(n["l"]).get("ty")
@@ -76,6 +135,8 @@ def run(ctx):
                 continue
             n_arith += 1
             ok = ty not in INT_TYPES
+            if not ok and n["op"].rstrip("=") in ("/", "%") and str(ty).startswith("u") and _nonzero(sym(n["r"])):
+                ok = True       # an unsigned division cannot overflow; the divisor is non-zero by construction
             ctx.check("C13.A1", "raw-integer-arithmetic-on-clock-values:%s" % n["op"], ok, fn=GO, file=fn["file"], line=hir.line(n),
                       what="unchecked integer arithmetic on a value derived from the GUI's clock parameters: for part of the input space it "
                            "wraps (e.g. 2%% of the clock + increment below the latency allowance turns a small budget into ~2^64 ms) or "
@@ -95,6 +156,9 @@ def run(ctx):
     sat = [n for n, _ in hir.walk(body) if n.get("k") == "MethodCall" and n["name"] in ("saturating_add", "saturating_sub", "saturating_mul", "min")
            and mentions_inputs(n, fn)]
     ctx.floor("C13.A1", "saturating/min operations on clock values", len(sat), 3)
+
+
+def a2_to_a6(ctx, F, fn, body, sym):
     # A2 / A3 / A4: the budget (the Option the timer statement tests) as one normal form, decided by cases over which `go`
     # parameters were given and whose turn it is (S-eval): the written form - assignments to a mutable local, one expression with
     # Option combinators, match or if-let - is free
@@ -148,18 +212,32 @@ def run(ctx):
                     bad.append((given, side, hir.fmt(v, 100)))
         ctx.check("C13.A4", "fixed-time-is-the-given-value", not bad, fn=GO, file=fn["file"], what="`movetime` must be used as given (never extended)",
                   expected="budget = Some(Duration::from_millis(move_time)) whenever movetime is given", found=bad[:3])
-        # A3: no movetime: a budget exists exactly when all four clock parameters were given
+        # A3: no movetime: no budget without the mover's own clock; a budget from a partial set of parameters (the increment or
+        # the opponent's clock left out) is held to the same clauses as the full one
         bad = []
+        partial = []
         for side in ("White", "Black"):
             for missing in CLOCKS + (None,):
                 given = tuple(c for c in CLOCKS if c != missing) if missing else ()
                 v = case(given, side)
-                if v != NONE:
+                if v == NONE:
+                    continue
+                if own[side][0] not in given:
                     bad.append((given, side, hir.fmt(v, 100)))
-        ctx.check("C13.A3", "clock-branch-needs-all-four-parameters", not bad, fn=GO, file=fn["file"],
-                  what="the clock budget is only defined when all four clock parameters were given", found=bad[:2])
+                else:
+                    partial.append((side, given, millis(v), v))
+        ctx.check("C13.A3", "no-clock-budget-without-the-mover's-clock", not bad, fn=GO, file=fn["file"],
+                  what="a clock budget is defined although the clock of the side to move was not given", found=bad[:2])
         for side in ("White", "Black"):
             budgets[side] = millis(case(CLOCKS, side))
+        for side, given, x, v in partial:
+            clock, inc = own[side]
+            okp = x is not None and x[0] == "call" and str(x[1]).endswith("Ord::min") and any(y == ("var", clock.upper()) for y in x[2]) and \
+                {s_[1].lower() for s_ in hir.subterms(x) if len(s_) == 2 and s_[0] == "var"} & INPUTS <= {clock, inc}
+            ctx.check("C13.A2", "partial-parameters:budget-clamped-by-own-clock:%s" % side, okp, fn=GO, file=fn["file"],
+                      what="with only some clock parameters given (%s) the budget must still be limited by the mover's own clock and "
+                           "built from the mover's clock and increment only" % ", ".join(given),
+                      expected="Some(from_millis(min(.., %s)))" % clock, found=hir.fmt(v, 200))
     ctx.check("C13.A3", "budget-selected-by-side-to-move", bool(players) and all(budgets.get(s_) is not None for s_ in ("White", "Black")) and
               budgets.get("White") != budgets.get("Black"), fn=GO, file=fn["file"],
               what="the clock budget must be chosen by the side to move of the current game: one budget under player == White, one otherwise",
@@ -292,6 +370,7 @@ def run(ctx):
     before, nv = len(ctx.instances), len(ctx.violations)
     p07.q1(ctx, F)
     p07.q2(ctx, F)
+    p07.flag_identity(ctx, F)       # ... and it is the same flag at every level of the search
     p14.flag_raised_only_by_go(ctx, F, "C14.O3")       # the timer's clear is final: nobody raises the flag again
     for i in ctx.instances[before:]:
         i["rule"] = "C13.A6(" + i["rule"] + ")"
